@@ -4,25 +4,8 @@ From CKC Require Import Base.Prelude Base.Reflect Base.SortN Spec.Layout Spec.Po
 From CKC Require Import Model.Card Model.Hands Model.Five Model.HandRank.
 From CKC Require Import Proofs.CardFacts Proofs.SortFacts Proofs.BitFacts Proofs.FiveFacts Proofs.PokerFacts
   Proofs.RankedFacts Proofs.ShapeFacts Proofs.ValidFacts.
+From CKC Require Export Proofs.HandFacts.
 Open Scope N_scope.
-
-(* ---- enumerating a list with positions ------------------------------------------------------ *)
-Fixpoint enum_from {A} (n : N) (l : list A) : list (N * A) :=
-  match l with [] => [] | x :: r => (n, x) :: enum_from (N.succ n) r end.
-
-Lemma enum_from_split {A} (P : N * A -> bool) (l : list A) n :
-  forallb P (enum_from n l) = true ->
-  forall pre x post, l = pre ++ x :: post -> P (n + N.of_nat (length pre), x) = true.
-Proof.
-  revert n. induction l as [|a l IH]; intros n H pre x post E.
-  - destruct pre; discriminate.
-  - cbn [enum_from forallb] in H. apply andb_true_iff in H. destruct H as [H1 H2].
-    destruct pre as [|b pre]; cbn [app length] in *.
-    + injection E as -> _. now rewrite N.add_0_r.
-    + injection E as -> E. specialize (IH _ H2 _ _ _ E).
-      replace (n + N.of_nat (S (length pre))) with (N.succ n + N.of_nat (length pre)) by lia.
-      exact IH.
-Qed.
 
 (* ---- THE REFLECTION: on every one of the 7 462 classes, in rank order, the tables give the
         position in the list ranked by the rules of poker ------------------------------------- *)
@@ -32,15 +15,6 @@ Definition eval_matches (chk : bool) (ip : N * (N * shape)) : bool :=
 
 Lemma eval_ranked chk : forallb (eval_matches chk) (enum_from 0 ranked) = true.
 Proof. destruct chk; vm_cast_no_check (eq_refl true). Qed.
-
-Definition Hand5 (ws : list N) : Prop := length ws = 5%nat /\ Forall RealCard ws /\ NoDup ws.
-
-Lemma shape_class ws : Hand5 ws -> exists c, In c all_shapes /\ score c = score (shape_of ws).
-Proof.
-  intros (HL & HR & HN). pose proof (shape_valid ws HL HR HN) as HV. unfold shape_of in *.
-  eexists. split; [apply canon_in_all_shapes, HV|].
-  apply score_perm, sort_desc_perm.
-Qed.
 
 Lemma hrv5_ordinal chk ws : Hand5 ws -> hrv5 chk ws = Ok (ordinal (shape_of ws)).
 Proof.
